@@ -18,6 +18,7 @@ vars == <<i, st, bad, cnt>>
 
 Clauses(e, b) ==
   IF e.a = "Basis" THEN [WellFormed |-> BasisWellFormed(e)]
+                        @@ (IF BasisWellFormed(e) /\ HasComp(e) THEN [CompositeNames |-> CompositeNames(e)] ELSE <<>>)
   ELSE IF b = <<>> THEN [BasisAvailable |-> FALSE]
   ELSE IF e.a = "Query" THEN QueryClauses(b, e)
   ELSE IF e.a = "Complement" THEN ComplementClauses(b, e)
